@@ -284,6 +284,10 @@ impl<'a, 'tcx> Cx<'a, 'tcx> {
             }
         }
         if let Const::Unevaluated(u, _) = c {
+            if let Some(p) = u.promoted {
+                o.push(("promoted", J::Int(p.index() as i128)));
+                o.push(("promoted_of", s(key(tcx, u.def))));
+            }
             o.push(("uneval", s(tcx.def_path_str(u.def))));
         }
         o.push(("repr", s(format!("{}", c))));
@@ -639,7 +643,48 @@ impl<'a, 'tcx> Cx<'a, 'tcx> {
             ]));
         }
         o.push(("blocks", J::Arr(blocks)));
+        // promoted constants as miniature bodies
+        if !matches!(kind, DefKind::Closure) || true {
+            let promoted = tcx.promoted_mir(did);
+            let mut ps = Vec::new();
+            for pb in promoted.iter() {
+                let pcx = Cx { tcx, body: pb, did };
+                ps.push(pcx.dump_promoted());
+            }
+            o.push(("promoted", J::Arr(ps)));
+        }
         J::Obj(o)
+    }
+
+    fn dump_promoted(&self) -> J {
+        let tcx = self.tcx;
+        let body = self.body;
+        let mut locals = Vec::new();
+        for (_l, d) in body.local_decls.iter_enumerated() {
+            locals.push(J::Obj(vec![("ty", s(ty_s(d.ty))), ("name", J::Null)]));
+        }
+        let mut blocks = Vec::new();
+        for (_bb, data) in body.basic_blocks.iter_enumerated() {
+            let mut stmts = Vec::new();
+            for st in &data.statements {
+                if let StatementKind::Assign(b) = &st.kind {
+                    let (p, rv) = &**b;
+                    stmts.push(J::Obj(vec![
+                        ("k", s("assign")),
+                        ("dst", self.place(p)),
+                        ("rv", self.rvalue(rv)),
+                        ("at", loc(tcx, st.source_info.span)),
+                        ("exp", expn(st.source_info.span)),
+                    ]));
+                }
+            }
+            let term = match &data.terminator {
+                Some(t) => self.terminator(t),
+                None => J::Null,
+            };
+            blocks.push(J::Obj(vec![("cleanup", J::Bool(data.is_cleanup)), ("stmts", J::Arr(stmts)), ("term", term)]));
+        }
+        J::Obj(vec![("locals", J::Arr(locals)), ("blocks", J::Arr(blocks)), ("arg_count", J::Int(0))])
     }
 }
 
